@@ -422,6 +422,9 @@ def local_os_fault_probe(ctx, rep: Report, n):
         shutil.rmtree(wd, ignore_errors=True)
 
 
+CLI_MINE = ('exception', 'hang', 'snapshot_unreadable', 'snapshot_objects', 'snapshot_name', 'partial_object', 'unknown_object', 'referenced_chunk_missing', 'gc_incomplete', 'restore_mismatch', 'config_touched', 'gc_overreach', 'stored_bytes')
+
+
 def _run(ctx, nscen, max_points, nlocal, rep):
     cases, exps = [], []
     for _ in range(nscen):
@@ -437,6 +440,10 @@ def _run(ctx, nscen, max_points, nlocal, rep):
     local_stage_cases(ctx.rng, ctx.scratch, rep, nlocal)
     cache_kill_probe(ctx, rep, max(4, nlocal // 10))
     local_os_fault_probe(ctx, rep, max(4, nlocal // 10))
+    # real kills: `python -m replicat` processes on a repository on disk, SIGKILLed at the k-th rename / unlink / temp-file creation
+    # (before or after it), and single OSErrors out of directory scans; afterwards everything visible must be whole and usable
+    from harness import cli_hist
+    cli_hist.run_scenarios(ctx, rep, {'kill': max(4, nscen), 'oserror': max(2, nscen // 2)}, CLI_MINE)
     if cases:
         traces, err = repo_hist.model_eval(cases)
         if traces is None:
@@ -463,6 +470,10 @@ def search(ctx, broken) -> Report:
 
 
 def replay(ctx, obj):
+    from harness import cli_hist
+    rc = cli_hist.replay_cli(ctx, obj, CLI_MINE)
+    if rc is not None:
+        return rc
     rep = Report(rule=RULE)
     r = obj.get('replay') or {}
     if 'seed' in r:
